@@ -20,6 +20,9 @@ pub mod clock {
         static MONO_NS: Cell<u64> = const { Cell::new(0) };
         /// simulated wall clock in unix milliseconds (may jump relative to MONO_NS)
         static UNIX_MS: Cell<u64> = const { Cell::new(0) };
+        /// time that passes for `std::time::Instant` readers only (fault "slow worker": seconds go by between two
+        /// packets a worker takes from its queue); flow lifetimes and the wall clock are not moved by it
+        static WORK_NS: Cell<u64> = const { Cell::new(0) };
         static READS_UNIX: Cell<u64> = const { Cell::new(0) };
         static READS_MONO: Cell<u64> = const { Cell::new(0) };
     }
@@ -36,6 +39,7 @@ pub mod clock {
         ARMED.with(|a| a.set(true));
         MONO_NS.with(|m| m.set(0));
         UNIX_MS.with(|u| u.set(unix_ms));
+        WORK_NS.with(|w| w.set(0));
         READS_UNIX.with(|c| c.set(0));
         READS_MONO.with(|c| c.set(0));
     }
@@ -71,6 +75,14 @@ pub mod clock {
             let v = u.get() as i128 + delta_ms as i128;
             u.set(v.clamp(0, u64::MAX as i128) as u64)
         });
+    }
+
+    pub fn work_advance_ns(ns: u64) {
+        WORK_NS.with(|w| w.set(w.get().saturating_add(ns)));
+    }
+
+    pub fn work_ns() -> u64 {
+        WORK_NS.with(|w| w.get())
     }
 
     pub fn mono_ns() -> u64 {
@@ -135,7 +147,7 @@ pub mod std {
 
         impl Instant {
             pub fn now() -> Instant {
-                Instant(crate::clock::mono_ns())
+                Instant(crate::clock::mono_ns().saturating_add(crate::clock::work_ns()))
             }
             pub fn elapsed(&self) -> Duration {
                 Instant::now().saturating_duration_since(*self)
